@@ -31,7 +31,7 @@ def w_out(o):
     return [] if o is None else [o[0], w_str(o[1]), w_str(o[2])]
 
 
-WORDS = ['', 'foo', 'xfoox', 'bar', 'fo', 'sat', 'unsat', 'error']
+WORDS = ['', 'foo', 'xfoox', 'bar', 'fo', 'sat', 'unsat', 'error', 'sat\r', 'foo\rbar', 'caf\u00e9 sat']      # incl. carriage returns and non-ASCII text: streams are compared verbatim
 
 
 def translate_step(ctx):
